@@ -56,3 +56,33 @@ MR = "json_to_models/registry.py::ModelRegistry"
 @contract(MR + ".__init__", props=[], verify=False)
 class RegistryInit:
     modifies = ["_models_cmp", "_registry", "_index"]
+
+GRAPHMOD = ["_type", "_types", "_hash", "_sorted", "_registry", "pointers", "child_pointers", "_name", "_name_generated",
+            "original_fields", "index", "parent", "parent_field_name", "ch", "i"]
+
+
+@contract(MR + ".process_meta_data", props=["C01", "C05"], verify=False)
+class ProcessMetaData:
+    modifies = ["_type", "_types", "_hash", "_sorted", "_registry", "pointers", "child_pointers", "_name", "_name_generated",
+                "original_fields", "index", "parent", "parent_field_name", "ch", "i"]
+
+    def raises(self, meta, model_name, parent, parent_model, replace_kwargs):
+        return {"*": True}
+
+
+@contract(MR + ".merge_models", props=["C05"], verify=False)
+class MergeModels:
+    sorts = {"result": "list"}
+    modifies = ["_type", "_types", "_hash", "_sorted", "_registry", "pointers", "child_pointers", "_name", "_name_generated",
+                "original_fields", "index", "parent", "parent_field_name", "ch", "i"]
+
+    def raises(self, generator, strict):
+        return {"*": True}
+
+
+@contract(MR + ".generate_names", props=["C03", "C11"], verify=False)
+class GenerateNames:
+    modifies = ["_name", "_name_generated"]
+
+    def raises(self):
+        return {"*": True}
